@@ -210,6 +210,9 @@ class IterateGvf(Contract):
         st.comment = z3.Function('line_is_a_comment', I_, B_)
         zz = lambda i: i if is_z3(i) else z3.IntVal(i)
         st.args = [FnView(st.n, lambda i: _GvfLine(self, zz(i)), tag='lines of the file')]
+        from .tables import first_loop_kind
+        if first_loop_kind(I, self.path, self.qualname) != 'for':
+            raise Unsupported('the reader is not written as `for line in handle` (this contract follows that form)')
         self._cur = st
         return st
 
@@ -1331,6 +1334,9 @@ class IterateCirc(Contract):
         st.comment = z3.Function('line_is_a_comment', I_, B_)
         zz = lambda i: i if is_z3(i) else z3.IntVal(i)
         st.args = [FnView(st.n, lambda i: _GvfLine(self, zz(i)), tag='lines of the file')]
+        from .tables import first_loop_kind
+        if first_loop_kind(I, self.path, self.qualname) != 'for':
+            raise Unsupported('the reader is not written as `for line in handle` (this contract follows that form)')
         self._cur = st
         return st
 
